@@ -73,7 +73,9 @@ def candidates(tree, src=""):
         nested_params = {a.arg for sub in ast.walk(fn) if isinstance(sub, (ast.FunctionDef, ast.Lambda)) and sub is not fn for a in sub.args.args}
         stores = {n.id for n in ast.walk(fn) if isinstance(n, ast.Name) and isinstance(n.ctx, ast.Store)}
         has_nonlocal = any(isinstance(n, (ast.Global, ast.Nonlocal)) for n in ast.walk(fn))
-        locs = sorted(stores - params - nested_params - {"self", "_"})
+        # (names captured by match patterns are strings in the syntax tree, not Name nodes: renaming only the Name occurrences would break the function)
+        captures = {getattr(n, "name", None) for n in ast.walk(fn) if isinstance(n, (ast.MatchAs, ast.MatchStar))} | {getattr(n, "rest", None) for n in ast.walk(fn) if isinstance(n, ast.MatchMapping)}
+        locs = sorted(stores - params - nested_params - captures - {"self", "_"})
         if locs and not has_nonlocal:
             out.append(("rename", fn, locs))
         for n in ast.walk(fn):
